@@ -804,7 +804,8 @@ pub fn compare_readback(ctx: &mut Ctx, stream: &str, spec: &CaseSpec, secs: &Sec
     compare_readback_at(ctx, stream, spec, secs, None, "");
 }
 
-/// `phys`: the model unit expected at each position of `.debug_info` (None: model order).
+/// `phys`: the model unit expected at each position of `.debug_info` (None: model order);
+/// model units that are not listed are expected to be absent (nothing may refer to them).
 /// `pfx` is put in front of every violation signature.  Returns true when nothing was flagged.
 pub fn compare_readback_at(ctx: &mut Ctx, stream: &str, spec: &CaseSpec, secs: &Secs, phys: Option<&[usize]>, pfx: &str) -> bool {
     let before = ctx.obs.get("violations_raw").copied().unwrap_or(0);
@@ -826,7 +827,8 @@ fn compare_readback_inner(ctx: &mut Ctx, stream: &str, spec: &CaseSpec, secs: &S
             return;
         }
     };
-    if !ctx.check_eq(&sg("readback.unit_count"), &spec.units.len(), &runits.len(), input) {
+    let want_units = phys.map_or(spec.units.len(), |p| p.len());
+    if !ctx.check_eq(&sg("readback.unit_count"), &want_units, &runits.len(), input) {
         return;
     }
     // ---- units are contiguous in the section; bring them into model order
@@ -837,25 +839,38 @@ fn compare_readback_inner(ctx: &mut Ctx, stream: &str, spec: &CaseSpec, secs: &S
         }
         end = ru.unit_off.wrapping_add(ru.total_len);
     }
+    let mut absent = vec![false; spec.units.len()];
     let runits: Vec<RUnit> = match phys {
         None => runits,
         Some(phys) => {
-            let mut slots: Vec<Option<RUnit>> = vec![None; runits.len()];
+            let mut slots: Vec<Option<RUnit>> = vec![None; spec.units.len()];
+            let mut placed = 0;
             for (p, ru) in runits.into_iter().enumerate() {
                 if let Some(slot) = phys.get(p).and_then(|u| slots.get_mut(*u)) {
+                    if slot.is_none() {
+                        placed += 1;
+                    }
                     *slot = Some(ru);
                 }
             }
-            if slots.iter().any(|x| x.is_none()) {
-                ctx.harness_errors.push("C11: expected unit order is not a permutation".into());
+            if placed != phys.len() {
+                ctx.harness_errors.push("C11: expected unit order names a unit twice or not at all".into());
                 return;
             }
-            slots.into_iter().flatten().collect()
+            for (u, s) in slots.iter().enumerate() {
+                absent[u] = s.is_none();
+            }
+            slots.into_iter().map(|s| s.unwrap_or_default()).collect()
         }
     };
     // ---- identity map
     let mut offs = Offs::default();
     for (u, ru) in runits.iter().enumerate() {
+        if absent[u] {
+            offs.unit.push(u64::MAX);
+            offs.die.push(BTreeMap::new());
+            continue;
+        }
         offs.unit.push(ru.unit_off);
         let mut m = BTreeMap::new();
         for rec in ru.recs.iter().filter(|r| !r.null) {
@@ -879,6 +894,9 @@ fn compare_readback_inner(ctx: &mut Ctx, stream: &str, spec: &CaseSpec, secs: &S
     let c = Cmp { spec, runits: &runits, offs };
 
     for (u, (us, ru)) in spec.units.iter().zip(runits.iter()).enumerate() {
+        if absent[u] {
+            continue;
+        }
         let enc = us.enc;
         ctx.check_eq(&sg("readback.encoding"), &(enc.version, enc.addr, enc.fmt64), &(ru.version, ru.addr, ru.fmt64), input);
         let order = us.model_order();
@@ -1042,7 +1060,7 @@ fn compare_readback_inner(ctx: &mut Ctx, stream: &str, spec: &CaseSpec, secs: &S
             }
         }
     }
-    observe_abbrevs(ctx, spec, &runits, secs);
+    observe_abbrevs(ctx, spec, &runits, &absent, secs);
     ctx.sample(stream, || json!({"spec": desc.chars().take(1200).collect::<String>(), "debug_info": hex(secs.get(gimli::SectionId::DebugInfo)), "debug_abbrev": hex(secs.get(gimli::SectionId::DebugAbbrev))}));
 }
 
@@ -1120,9 +1138,12 @@ fn model_shape(us: &UnitSpec, k: usize) -> (u16, bool, Vec<(u16, u16, i64)>) {
 }
 
 /// Coverage of abbreviation sharing; never a verdict (sharing is not part of the property).
-fn observe_abbrevs(ctx: &mut Ctx, spec: &CaseSpec, runits: &[RUnit], secs: &Secs) {
+fn observe_abbrevs(ctx: &mut Ctx, spec: &CaseSpec, runits: &[RUnit], absent: &[bool], secs: &Secs) {
     let data = secs.get(gimli::SectionId::DebugAbbrev);
-    for (us, ru) in spec.units.iter().zip(runits.iter()) {
+    for (u, (us, ru)) in spec.units.iter().zip(runits.iter()).enumerate() {
+        if absent.get(u).copied().unwrap_or(false) {
+            continue;
+        }
         let order = us.model_order();
         let mut shapes: Vec<(u16, bool, Vec<(u16, u16, i64)>)> = order.iter().map(|(k, _)| model_shape(us, *k)).collect();
         let entries = shapes.len();
